@@ -246,10 +246,10 @@ pub fn run(run: &mut Run) {
             let r = mapper::run_backend(c, mapper::Backend::Recursive, T_C20);
             obs.add_evals(c.ops.len() as u64);
             if let Some(f) = r.fail {
-                if f.tag == T_C20 {
+                if f.tag & T_C20 != 0 {
                     return Err(format!("[C20] {}", f.msg));
                 }
-                obs.label(format!("history-stopped-by-{}", mapper::tag_name(f.tag)));
+                obs.label(format!("history-stopped-by-{}", mapper::tag_name(mapper::lowest(f.tag))));
             }
             if r.steps_done >= 3 {
                 obs.nontrivial(&r.shape);
